@@ -972,8 +972,9 @@ def _alter_files(
                     basis_inter = InterTree.get(basis_tree, working_tree)
                     basis_path = basis_inter.find_source_path(wt_path)
                     if basis_path is None:
-                        if target_kind is None and not target_versioned:
-                            keep_content = True
+                        # Not in the basis at all: whatever is there was
+                        # written by the user, so never discard it silently.
+                        keep_content = True
                     else:
                         if wt_sha1 != basis_tree.get_file_sha1(basis_path):
                             keep_content = True
